@@ -1,5 +1,6 @@
 import Failsafe.Exec
 import Failsafe.Tie.Execution
+import Failsafe.Lemmas.ExecBodiesLink
 /-!
 # C17 — execution statistics count attempts, executions, retries and hedges exactly
 
@@ -386,5 +387,104 @@ theorem seenBy_cancelled (r : Run) (o : Outcome) (h : o.err = none) (hc : r.ext.
     r.seenBy o = ⟨o.val, some Err.canceled⟩ := by
   unfold Run.seenBy
   rcases hc with hc | hc <;> simp [h, hc]
+
+/-! ## The counters of `execution.go`, on the regenerated bodies
+
+The reference definitions below are what the bodies of `newExecution`'s zero state, `InitializeRetry`, `CopyForHedge`, `record`,
+`Cancel`, `RecordResult`, `CopyWithResult` and `LastError` — regenerated from the source on every run — are proved equal to
+(`Tie/XExecution.lean`). Hedge attempts run concurrently, so the invariant is stated for **every order** of the operations. -/
+section counters
+open Failsafe.ExecBodies
+
+/-- every operation the library performs on an execution's shared state -/
+inductive XOp
+  | initializeRetry | copyForHedge | record
+  | cancel (r : Option PR) | recordResult (r : Option PR) | copyWithResult (r : Option PR)
+
+def XOp.apply (s : XSt) : XOp → XSt
+  | .initializeRetry => (ExecBodies.initializeRetry s).2
+  | .copyForHedge => ExecBodies.copyForHedge s
+  | .record => ExecBodies.record s
+  | .cancel r => ExecBodies.cancel s r
+  | .recordResult r => (ExecBodies.recordResult s r).2
+  | .copyWithResult r => ExecBodies.copyWithResult s r
+
+def XInv (s : XSt) : Prop := s.attempts = 1 + s.retries + s.hedges
+
+theorem xinv_step (s : XSt) (op : XOp) (h : XInv s) : XInv (op.apply s) := by
+  unfold XInv at *
+  cases op with
+  | initializeRetry =>
+    simp only [XOp.apply, ExecBodies.initializeRetry]
+    split
+    · exact h
+    · simp only []; split <;> omega
+  | copyForHedge => simp only [XOp.apply, ExecBodies.copyForHedge]; omega
+  | record => exact h
+  | cancel r =>
+    simp only [XOp.apply, ExecBodies.cancel]
+    split
+    · exact h
+    · cases r <;> simp only [] <;> split <;> simpa [callCancelFunc] using h
+  | recordResult r =>
+    simp only [XOp.apply, ExecBodies.recordResult]
+    split
+    · exact h
+    · cases r <;> exact h
+  | copyWithResult r => cases r <;> exact h
+
+/-- **`Attempts = 1 + Retries + Hedges` after any sequence of the operations of `execution.go`, in any order**, from a new
+execution — on the regenerated bodies themselves -/
+theorem counters_invariant (ops : List XOp) : XInv (ops.foldl XOp.apply XSt.new) := by
+  have : ∀ (s : XSt), XInv s → XInv (ops.foldl XOp.apply s) := by
+    induction ops with
+    | nil => intro s h; exact h
+    | cons o os ih => intro s h; exact ih _ (xinv_step s o h)
+  exact this _ (by simp [XInv, XSt.new])
+
+/-- a retry is one more attempt and one more retry; a hedge one more attempt and one more hedge; `record` counts a completed
+invocation and nothing else -/
+theorem counter_steps (s : XSt) (h1 : 1 ≤ s.attempts) :
+    ((isCanc s).1 = false → (ExecBodies.initializeRetry s).2.attempts = s.attempts + 1 ∧ (ExecBodies.initializeRetry s).2.retries = s.retries + 1 ∧
+        (ExecBodies.initializeRetry s).2.hedges = s.hedges ∧ (ExecBodies.initializeRetry s).2.executions = s.executions) ∧
+    ((ExecBodies.copyForHedge s).attempts = s.attempts + 1 ∧ (ExecBodies.copyForHedge s).hedges = s.hedges + 1 ∧
+        (ExecBodies.copyForHedge s).retries = s.retries ∧ (ExecBodies.copyForHedge s).isHedge = true) ∧
+    ((ExecBodies.record s).executions = s.executions + 1 ∧ (ExecBodies.record s).attempts = s.attempts) := by
+  refine ⟨fun h => ?_, ⟨rfl, rfl, rfl, rfl⟩, ⟨rfl, rfl⟩⟩
+  simp [ExecBodies.initializeRetry, h]; omega
+
+/-- a rejected attempt (the policy returned before the function) never reaches `record`: `Executions` only moves in `record` -/
+theorem executions_only_in_record (s : XSt) (op : XOp) (h : (op.apply s).executions ≠ s.executions) : ∃ _ : op = XOp.record, True := by
+  cases op with
+  | record => exact ⟨rfl, trivial⟩
+  | initializeRetry => simp only [XOp.apply, ExecBodies.initializeRetry] at h; split at h <;> simp at h
+  | copyForHedge => simp [XOp.apply, ExecBodies.copyForHedge] at h
+  | cancel r =>
+    exfalso; apply h
+    simp only [XOp.apply, ExecBodies.cancel]
+    split
+    · rfl
+    · cases r <;> simp only [] <;> split <;> simp [callCancelFunc]
+  | recordResult r =>
+    exfalso; apply h
+    simp only [XOp.apply, ExecBodies.recordResult]
+    split
+    · rfl
+    · cases r <;> rfl
+  | copyWithResult r => exfalso; apply h; cases r <;> rfl
+
+/-- **what the wrapped function and the listeners read as the last outcome is `LastResult` / `LastError` of the regenerated
+`execution.go`** (links of the composition model) -/
+theorem model_last_outcome_views_are_the_codes (r : Run) (o : Outcome) :
+    r.seenLast = ⟨r.last.val, ExecBodies.lastError { lastVal := r.last.val, lastErr := r.last.err,
+                                                     ctxErr := if r.ext.isSome then some Err.canceled else none }⟩ ∧
+    r.seenBy o = (let c := ExecBodies.copyWithResult { ctxErr := if r.ext.isSome || r.cancelled then some Err.canceled else none } (some ⟨o.val, o.err, true, false, false⟩)
+                  ⟨c.lastVal, ExecBodies.lastError c⟩) :=
+  ⟨Failsafe.Lemmas.ExecBodiesLink.seenLast_link r, Failsafe.Lemmas.ExecBodiesLink.seenBy_link r o true false false⟩
+
+example : XInv ([XOp.initializeRetry, .copyForHedge, .record, .cancel none, .initializeRetry].foldl XOp.apply XSt.new) := counters_invariant _
+example : ([XOp.initializeRetry, .copyForHedge, .record].foldl XOp.apply XSt.new).attempts = 3 := by decide
+
+end counters
 
 end Failsafe.Props.C17
